@@ -176,6 +176,10 @@ inductive Kind where
   | execBadOption -- `exec --no-such-option`: the built-in reports a usage error and does not retain
   | dot          -- `. /tmp/s` where the script runs `fds`
   | dotMissing   -- `. /tmp/a/e`: the script cannot be opened
+  | guardUndo    -- the harness's `rg` built-in: `RedirGuard::new`, `perform_redir` item by item (the
+                 -- table is looked at after every call, the error cause is kept), then `undo_redirs`
+  | guardKeep    -- the same, ending with `preserve_redirs` when every item succeeded (what
+                 -- `execute_builtin` does for `exec`); a failure is undone
   deriving DecidableEq, Repr
 
 /-- what was seen of one run -/
@@ -195,6 +199,9 @@ structure Trace where
   saved : List SavedFd := []
   /-- the descriptor the `.` built-in reads the script from -/
   script : Option Fd := none
+  /-- the guard driven directly (`guardUndo`/`guardKeep`): world and table after every
+      `perform_redir` call, and the cause of the call that failed -/
+  steps : Option (List (World × FdTable) × Option ErrCause) := none
 
 /-- the probe built-in's I/O: one byte to descriptor 1, up to two bytes from descriptor 0 -/
 def probeIO (w : World) (t : FdTable) : World × Bool × (Option (List Nat) × Bool) :=
@@ -213,13 +220,19 @@ def probeIO (w : World) (t : FdTable) : World × Bool × (Option (List Nat) × B
 
 /-- kinds whose built-in is `exec` (its result always asks to retain the redirections) -/
 def Kind.isExec : Kind → Bool
-  | .exec | .commandExec | .execNotFound | .execNoExec | .commandExecNotFound => true
+  | .exec | .commandExec | .execNotFound | .execNoExec | .commandExecNotFound | .guardKeep => true
   | _ => false
 
 /-- kinds that are special built-ins: a redirection error (or an error the built-in reports)
     interrupts the shell -/
 def Kind.isSpecial : Kind → Bool
-  | .special | .colon | .exec | .execNotFound | .execNoExec | .execBadOption | .dot | .dotMissing => true
+  | .special => true     -- the harness's own `sfds`, registered as `Type::Special`
+  -- the types yash-builtin/src/lib.rs registers (re-extracted on every run)
+  | .colon => typeOfColon == .special
+  | .exec | .execNotFound | .execNoExec | .execBadOption => typeOfExec == .special
+  | .dot | .dotMissing => typeOfDot == .special
+  -- `command exec …` runs under the type of `command`
+  | .commandExec | .commandExecNotFound => typeOfCommand == .special
   | _ => false
 
 /-- `Divert::Interrupt` from a special built-in, or `Divert::Abort` from an `exec` that could not
@@ -246,13 +259,24 @@ def runCommand (w : World) (t : FdTable) (k : Kind) (rs : List Redir) (prev : Na
     match g.err with
     | some _ => { w := g.w.message g.t, t := t, status := some 2 }
     | none => { w := g.w, t := t, status := some 0 }
+  | .guardUndo | .guardKeep =>
+    -- the built-in itself carries no redirection; `rs` is the list it hands to its own guard.  It
+    -- prints nothing; its exit status is 2 when a `perform_redir` failed
+    let g := performRedirs worldOracle w t rs
+    { w := g.w,
+      t := if k == .guardKeep && g.err.isNone then preserveRedirs g.t g.saved else undoRedirs g.t g.saved,
+      status := some (if g.err.isSome then 2 else 0), saved := g.saved,
+      steps := some (performSteps worldOracle w t rs, g.err) }
   | _ =>
     let g := performRedirs worldOracle w t rs
     match g.err with
-    | some _ =>
+    | some e =>
       let w1 := g.w.message g.t
       let t1 := undoRedirs g.t g.saved
-      if k.isSpecial then endOrGoOn w1 t1 2 [] else { w := w1, t := t1, status := some 2 }
+      -- `Handle for redir::Error` (yash-semantics/src/handle.rs): an `Expansion` cause is handled like
+      -- any other expansion error — `Divert::Interrupt` whatever the command is (the guard is dropped on
+      -- the way out); every other cause gives status 2 and interrupts only a special built-in
+      if k.isSpecial || e == .expansion then endOrGoOn w1 t1 2 [] else { w := w1, t := t1, status := some 2 }
     | none =>
       match k with
       | .exec | .commandExec =>
